@@ -158,7 +158,7 @@ inductive Ev
   | openAcl (n : Name)          -- `addCmd` of an ACL header: printed, `subCmdOf = header` (no `exit`)
   | sub (p : Mode) (c : Chg)    -- `setCmdConfMode(p)`, then the command
   | reset                       -- `subCmdOf = ""` without output (resequence line added and dropped again)
-  | exitIfSub                   -- `deleteUnused`: `exit` if `subCmdOf != ""`
+  | exitTop (c : Chg)           -- `deleteUnused`: `exit` if `subCmdOf != ""`, then `addToplevel`
   deriving DecidableEq, Repr, Inhabited
 
 /-- One event: printed lines and the new value of `subCmdOf`. -/
@@ -169,11 +169,22 @@ def renderEv (m : Option Mode) : Ev → List Chg × Option Mode
     if m == some p then ([c], m)
     else ((if m.isSome then [Chg.exit] else []) ++ [p.line, c], some p)
   | .reset => ([], none)
-  | .exitIfSub => (if m.isSome then [Chg.exit] else [], m)
+  | .exitTop c => ((if m.isSome then [Chg.exit] else []) ++ [c], none)
 
 def render : Option Mode → List Ev → List Chg
   | _, [] => []
   | m, e :: es => (renderEv m e).1 ++ render (renderEv m e).2 es
+
+/-- Ghost: the same with the parent (`some p` for a sub-command emitted for parent `p`). -/
+def renderEvP (m : Option Mode) : Ev → List (Option Mode × Chg)
+  | .sub p c =>
+    if m == some p then [(some p, c)]
+    else (if m.isSome then [(none, Chg.exit)] else []) ++ [(none, p.line), (some p, c)]
+  | e => (renderEv m e).1.map fun c => (none, c)
+
+def renderP : Option Mode → List Ev → List (Option Mode × Chg)
+  | _, [] => []
+  | m, e :: es => renderEvP m e ++ renderP (renderEv m e).2 es
 
 /-! ## One ACL pair: `diffCmds` on the entry lines, `diffIOSACLs` -/
 
@@ -190,11 +201,11 @@ def pairCells (al bl : List ALine) (rs : List Range) : Option (List Cell) :=
 /-- The line that carries `key` (its text is the text of every line with that key). -/
 def lineOfKey (al bl : List ALine) (k : Nat) : ALine := (al ++ bl).getD k default
 
-def opChg (al bl : List ALine) : NA.Acl.IOp → Chg
-  | .add n l => .numEntry n (lineOfKey al bl l.key)
-  | .del n => .noNum n
-  | .move dn an l => .move dn an (lineOfKey al bl l.key)
-  | _ => .bad
+def opEv (aN : Name) (al bl : List ALine) : NA.Acl.IOp → Ev
+  | .add n l => .sub (.acl aN) (.numEntry n (lineOfKey al bl l.key))
+  | .del n => .sub (.acl aN) (.noNum n)
+  | .move dn an l => .sub (.acl aN) (.move dn an (lineOfKey al bl l.key))
+  | _ => .top .bad
 
 /-- Events of `diffCmds(A.sub, B.sub)` for the device ACL `aN` (both lists of entries, the Myers
 script of the pair).  `al` empty: `diffUnordered` yields inserts only. -/
@@ -209,8 +220,7 @@ def editEvents (aN : Name) (al bl : List ALine) (rs : List Range) : List Ev :=
     else
       let ops := NA.Acl.planIOS M
       if ops.isEmpty then [.reset]
-      else [.top (.reseq aN 10000 10000)] ++ ops.map (fun op => Ev.sub (.acl aN) (opChg al bl op)) ++
-           [.top (.reseq aN 10 10)]
+      else [.top (.reseq aN 10000 10000)] ++ ops.map (opEv aN al bl) ++ [.top (.reseq aN 10 10)]
 
 /-- Branch taken (for the measured distribution) and the ghost flag of `planIOS'`. -/
 def editKind (al bl : List ALine) (rs : List Range) : String :=
@@ -245,7 +255,8 @@ def expand : MA → List Ev
   | .route r => [.top (.route r)]
   | .replRoute o n => [.top (.replRoute o n)]
   | .noRoute r => [.top (.noRoute r)]
-  | .cleanup ns => .exitIfSub :: ns.map fun n => Ev.top (.noAcl n)
+  | .cleanup [] => []
+  | .cleanup (n :: ns) => .exitTop (.noAcl n) :: ns.map fun n => Ev.top (.noAcl n)
 
 def scriptOf (acts : List MA) : List Chg := render none (acts.flatMap expand)
 
@@ -286,6 +297,10 @@ def diffLines (e : Env) (st : St) (aN bN : Name) : St :=
   let st := st.hit (editKind al bl (lookupD e.sc.acl (aN, bN)))
   if al.isEmpty && bl.isEmpty then st else st.act (.edit aN al bl (lookupD e.sc.acl (aN, bN)))
 
+/-- `makeEqual` of two ACL objects: the device ACL is `needed`, the target ACL takes its name and is `ready`. -/
+def adoptSt (st : St) (aN bN : Name) : St :=
+  { st with aNeeded := aN :: st.aNeeded, aName := (bN, aN) :: st.aName, aReady := bN :: st.aReady }.hit "acl:adopt"
+
 /-- `diffCmds(aRef, bRef, byParsedCmd)` for two ACL objects (both headers are
 `ip access-list extended $NAME`, so the pair is always "equal": `makeEqual` adopts the device
 name); returns the name to be referenced. -/
@@ -295,9 +310,7 @@ def diffAcl (e : Env) (st : St) (aN bN : Name) : St × Name :=
     (st, st.nameOf bN)
   else if st.aReady.contains bN then (st.hit "acl:target-acl-ready", st.nameOf bN)
   else
-    let st := { st with aNeeded := aN :: st.aNeeded, aName := (bN, aN) :: st.aName,
-                        aReady := bN :: st.aReady }.hit "acl:adopt"
-    (diffLines e st aN bN, aN)
+    (diffLines e (adoptSt st aN bN) aN bN, aN)
 
 /-! ## `ip access-group` sub-commands of one interface pair -/
 
@@ -305,25 +318,28 @@ def diffAcl (e : Env) (st : St) (aN bN : Name) : St × Name :=
 def bindKey (c : Config) (b : Bind) : String :=
   if c.hasAcl b.acl then "$REF " ++ b.dir else b.acl ++ " " ++ b.dir
 
-/-- `markDeleted` of device sub-commands: the referenced ACLs get `toDelete`. -/
-def markDeletedBinds (e : Env) (st : St) (bs : List Bind) : St :=
-  { st with aToDel := bs.foldl (fun s b => if e.a.hasAcl b.acl then addSet b.acl s else s) st.aToDel }
+/-- `delCmds` + `markDeleted` for one device sub-command `al[k]` of device interface `i`: the command
+is removed unless it is `needed` already; the referenced ACL gets `toDelete`.  (The Go code first
+prints all removals of the slice and then marks; the marks are not read in between, so doing both
+per command gives the same state.) -/
+def delBind1 (e : Env) (i : Nat) (intf : String) (al : List Bind) (st : St) (k : Nat) : St :=
+  let b := al.getD k default
+  let st := if st.bNeeded.contains (i, k) then st else
+    ({ st with bNeeded := (i, k) :: st.bNeeded }.act (.unbind intf b.acl b.dir)).hit "bind:del"
+  if e.a.hasAcl b.acl then { st with aToDel := addSet b.acl st.aToDel } else st
 
 /-- `delCmds` of device sub-commands `al[k]`, `k ∈ idx`, of device interface `i`. -/
 def delBinds (e : Env) (st : St) (i : Nat) (intf : String) (al : List Bind) (idx : List Nat) : St :=
-  let st := idx.foldl (fun st k =>
-    if st.bNeeded.contains (i, k) then st else
-    let b := al.getD k default
-    ({ st with bNeeded := (i, k) :: st.bNeeded }.act (.unbind intf b.acl b.dir)).hit "bind:del") st
-  if idx.isEmpty then st else markDeletedBinds e st (idx.map fun k => al.getD k default)
+  idx.foldl (delBind1 e i intf al) st
 
-/-- `addCmds` of target sub-commands: referenced ACL first, then the sub-command. -/
-def addBinds (e : Env) (st : St) (intf : String) (bs : List Bind) : St :=
-  bs.foldl (fun st b =>
-    if e.b.hasAcl b.acl then
-      let st := transferAcl e st b.acl
-      (st.act (.bind intf (st.nameOf b.acl) b.dir)).hit "bind:add"
-    else (st.act (.bind intf b.acl b.dir)).hit "bind:add-dangling") st
+/-- `addCmds` of one target sub-command: referenced ACL first, then the sub-command. -/
+def addBind1 (e : Env) (intf : String) (st : St) (b : Bind) : St :=
+  if e.b.hasAcl b.acl then
+    let st := transferAcl e st b.acl
+    (st.act (.bind intf (st.nameOf b.acl) b.dir)).hit "bind:add"
+  else (st.act (.bind intf b.acl b.dir)).hit "bind:add-dangling"
+
+def addBinds (e : Env) (st : St) (intf : String) (bs : List Bind) : St := bs.foldl (addBind1 e intf) st
 
 /-- `makeEqual` for one pair of sub-commands. -/
 def makeEqualBind (e : Env) (st : St) (i k : Nat) (intf : String) (a b : Bind) : St :=
@@ -352,22 +368,26 @@ def diffBinds (e : Env) (st : St) (i : Nat) (intf : String) (al bl : List Bind) 
 
 /-! ## Interfaces -/
 
+/-- `makeEqual` for one pair of interfaces (`p.1`: index of the device interface). -/
+def pairStep (e : Env) (al : List Intf) (st : St) (p : Nat × Intf) : St :=
+  let a := al.getD p.1 default
+  diffBinds e ({ st with iNeeded := p.1 :: st.iNeeded }.hit "intf:pair") p.1 a.name a.binds p.2.binds
+
 /-- `diffCmds` for the interface anchors (`al`: aligned device interfaces).  After
 `checkIOSInterfaces` every target interface has a partner, so there is no insert range; delete
 ranges and "no parts equal" print nothing (`delCmds`/`markDeleted`/`addCmd` return for
-`interface`). -/
+`interface`).  The second fold only counts branches (ghost). -/
 def diffIntfs (e : Env) (st : St) (al bl : List Intf) : St :=
   let diff := diffUnordered (al.map (·.name)) (bl.map (·.name))
-  if !(diff.any (·.isEqual)) then (if al.isEmpty && bl.isEmpty then st else st.hit "intf:no-parts-equal")
-  else
-    diff.foldl (fun st r =>
-      if r.isInsert then (if r.highB ≤ r.lowB then st else st.hit "intf:UNREACHABLE-insert")
+  let st := diff.foldl (fun st r =>
+      if r.isInsert then st
       else if r.isEqual then
-        ((slice (List.range al.length) r.lowA r.highA).zip (slice bl r.lowB r.highB)).foldl
-          (fun st p =>
-            let a := al.getD p.1 default
-            diffBinds e ({ st with iNeeded := p.1 :: st.iNeeded }.hit "intf:pair") p.1 a.name a.binds p.2.binds) st
-      else st.hit "intf:device-only") st
+        ((slice (List.range al.length) r.lowA r.highA).zip (slice bl r.lowB r.highB)).foldl (pairStep e al) st
+      else st) st
+  diff.foldl (fun st r =>
+      if r.isInsert then (if r.highB ≤ r.lowB then st else st.hit "intf:UNREACHABLE-insert")
+      else if r.isEqual then st else st.hit "intf:device-only")
+    (if !(diff.any (·.isEqual)) && !(al.isEmpty && bl.isEmpty) then st.hit "intf:no-parts-equal" else st)
 
 /-! ## Routes -/
 
@@ -382,30 +402,44 @@ def sortRoutes (l : List Route) : List Route := l.foldr insertR []
 def vrfInfo (vrf : String) : String :=
   "No IPv4 routing specified" ++ (if vrf == "" then "" else " for VRF " ++ vrf) ++ ", leaving untouched"
 
-/-- `diffCmds` + `diffRoutes` for the (sorted) route lists. -/
-def diffRoutes (st : St) (al bl : List Route) : St :=
-  if al.isEmpty then
-    bl.foldl (fun st r => (st.act (.route r.text)).hit "route:add") st
+/-- `(vrf, destination)`: the key of `delDst`. -/
+def Route.key (r : Route) : String × String := (r.vrf, r.dst)
+
+/-- Second loop of `diffRoutes` for one added route `r`: `dels` are the deleted device routes (index,
+route); `used`: device routes removed by a replacement so far; `gone`: keys taken out of `delDst`.
+The last deleted route with the key of `r` is replaced, once. -/
+def insStep (dels : List (Nat × Route)) (s : List MA × List Nat × List (String × String)) (r : Route) :
+    List MA × List Nat × List (String × String) :=
+  match (dels.filter fun d => d.2.key == r.key && !s.2.2.contains r.key).getLast? with
+  | some d => (s.1 ++ [.replRoute d.2.text r.text], d.1 :: s.2.1, r.key :: s.2.2)
+  | none => (s.1 ++ [.route r.text], s.2.1, s.2.2)
+
+/-- `diffCmds` + `diffRoutes` for the (sorted) route lists: decisions and info messages. -/
+def routePlan (al bl : List Route) : List MA × List String :=
+  if al.isEmpty then (bl.map fun r => MA.route r.text, [])
   else
     let diff := diffUnordered (al.map (·.text)) (bl.map (·.text))
     let chgVRF := bl.map (·.vrf)
     let dels : List (Nat × Route) := diff.flatMap fun r =>
       if r.isDelete then (List.range (r.highA - r.lowA)).map fun i => (r.lowA + i, al.getD (r.lowA + i) default) else []
     let inss := diff.flatMap fun r => if r.isInsert then slice bl r.lowB r.highB else []
-    -- inserts, joined with the delete of the (last) old route to the same destination;
-    -- `used`: device routes removed that way; `gone`: destinations taken out of `delDst`
-    let (st, used, _) := inss.foldl (fun (s : St × List Nat × List (String × String)) r =>
-      let (st, used, gone) := s
-      match (dels.filter fun d => d.2.vrf == r.vrf && d.2.dst == r.dst && !gone.contains (r.vrf, r.dst)).getLast? with
-      | some d => ((st.act (.replRoute d.2.text r.text)).hit "route:replace", d.1 :: used, (r.vrf, r.dst) :: gone)
-      | none => ((st.act (.route r.text)).hit "route:add", used, gone)) (st, [], [])
+    -- inserts, joined with the delete of the (last) old route to the same destination
+    let s := inss.foldl (insStep dels) ([], [], [])
     -- remaining deletes, per VRF only if Netspoc specifies routes for that VRF
-    (dels.foldl (fun (s : St × List String) d =>
-      let (st, seen) := s
-      if chgVRF.contains d.2.vrf then
-        (if used.contains d.1 then st else (st.act (.noRoute d.2.text)).hit "route:del", seen)
-      else if seen.contains d.2.vrf then (st, seen)
-      else ((st.msg (vrfInfo d.2.vrf)).hit "route:vrf-left-untouched", d.2.vrf :: seen)) (st, [])).1
+    let acts2 := dels.filterMap fun d =>
+      if chgVRF.contains d.2.vrf && !s.2.1.contains d.1 then some (MA.noRoute d.2.text) else none
+    (s.1 ++ acts2, (((dels.map (·.2.vrf)).filter fun v => !chgVRF.contains v).eraseDups).map vrfInfo)
+
+def routeHit : MA → String
+  | .route _ => "route:add"
+  | .replRoute _ _ => "route:replace"
+  | .noRoute _ => "route:del"
+  | _ => "route:?"
+
+def diffRoutes (st : St) (al bl : List Route) : St :=
+  let p := routePlan al bl
+  { st with acts := st.acts ++ p.1, msgs := st.msgs ++ p.2,
+            hits := (p.2.map fun _ => "route:vrf-left-untouched") ++ p.1.map routeHit ++ st.hits }
 
 /-! ## `alignVRFs`, `checkIOSInterfaces` -/
 
@@ -433,30 +467,37 @@ def alignVRFs (a b : Config) (st : St) : St × Config :=
 def vrfShown (v : String) : String := if v == "" then "<global>" else v
 def inspectShown (b : Bool) : String := if b then "enabled" else "disabled"
 
-/-- `checkIOSInterfaces`; `none` = error (the message is the last of `msgs`). -/
+/-- The partner of a device interface: `bIntf[name]` (the last definition wins). -/
+def bFind (b : Config) (n : String) : Option Intf := b.intfs.reverse.find? fun i => i.name == n
+
+/-- One round of the loop over the device interfaces in `checkIOSInterfaces` (`s.2 = false`: an
+error has been returned). -/
+def checkStep (a b : Config) (s : St × Bool) (ai : Intf) : St × Bool :=
+  if !s.2 then s else
+  let st := s.1
+  match bFind b ai.name with
+  | some bi =>
+    let st := if ai.addr != bi.addr && bi.addr != "negotiated" then
+        (st.msg ("WARNING>>> Different address defined for interface " ++ ai.name ++
+          ": Device: " ++ quote ai.addr ++ ", Netspoc: " ++ quote bi.addr)).hit "check:address-differs"
+      else st
+    if ai.inspect != bi.inspect then
+      ((st.msg ("ERROR>>> Different 'ip inspect' defined for interface " ++ ai.name ++
+        ": Device: " ++ inspectShown ai.inspect ++ ", Netspoc: " ++ inspectShown bi.inspect)).hit "check:inspect-differs", false)
+    else if ai.vrf != bi.vrf then
+      ((st.msg ("ERROR>>> Different VRFs defined for interface " ++ ai.name ++
+        ": Device: " ++ vrfShown ai.vrf ++ ", Netspoc: " ++ vrfShown bi.vrf)).hit "check:vrf-differs", false)
+    else (st, true)
+  | none =>
+    -- ACLs bound to an interface unknown to Netspoc must not be changed or deleted (repaired F-C07c)
+    let st := markNeededIntf a st ai
+    if !ai.shut && ai.addr != "" && !b.intfs.isEmpty then
+      ((st.msg ("WARNING>>> Interface '" ++ ai.name ++ "' on device is not known by Netspoc")).hit "check:unknown-interface", true)
+    else (st.hit "check:unknown-interface-silent", true)
+
+/-- `checkIOSInterfaces`; `false` = error (the message is the last of `msgs`). -/
 def checkInterfaces (a b : Config) (st : St) : St × Bool :=
-  let bFind := fun (n : String) => (b.intfs.reverse.find? fun i => i.name == n)
-  let step := fun (s : St × Bool) (ai : Intf) =>
-    if !s.2 then s else
-    let st := s.1
-    match bFind ai.name with
-    | some bi =>
-      let st := if ai.addr != bi.addr && bi.addr != "negotiated" then
-          (st.msg ("WARNING>>> Different address defined for interface " ++ ai.name ++
-            ": Device: " ++ quote ai.addr ++ ", Netspoc: " ++ quote bi.addr)).hit "check:address-differs"
-        else st
-      if ai.inspect != bi.inspect then
-        ((st.msg ("ERROR>>> Different 'ip inspect' defined for interface " ++ ai.name ++
-          ": Device: " ++ inspectShown ai.inspect ++ ", Netspoc: " ++ inspectShown bi.inspect)).hit "check:inspect-differs", false)
-      else if ai.vrf != bi.vrf then
-        ((st.msg ("ERROR>>> Different VRFs defined for interface " ++ ai.name ++
-          ": Device: " ++ vrfShown ai.vrf ++ ", Netspoc: " ++ vrfShown bi.vrf)).hit "check:vrf-differs", false)
-      else (st, true)
-    | none =>
-      if !ai.shut && ai.addr != "" && !b.intfs.isEmpty then
-        ((st.msg ("WARNING>>> Interface '" ++ ai.name ++ "' on device is not known by Netspoc")).hit "check:unknown-interface", true)
-      else (st.hit "check:unknown-interface-silent", true)
-  let s := a.intfs.foldl step (st, true)
+  let s := a.intfs.foldl (checkStep a b) (st, true)
   if !s.2 then s else
   match b.intfs.find? fun bi => !(a.intfs.any fun ai => ai.name == bi.name) with
   | some bi => ((s.1.msg ("ERROR>>> Interface '" ++ bi.name ++ "' from Netspoc not known on device")).hit "check:netspoc-interface-missing", false)
@@ -465,7 +506,7 @@ def checkInterfaces (a b : Config) (st : St) : St × Bool :=
 /-! ## `deleteUnused` -/
 
 /-- What is in `toDelete` after the `stillReferenced` filter (sorted), and whether that filter
-removed something.  Protected: ACLs referenced by a sub-command that is not `needed` of an interface
+removed something (ACL names are the keys of a map in the Go code: pairwise different).  Protected: ACLs referenced by a sub-command that is not `needed` of an interface
 that is not `needed` (an interface unknown to Netspoc in a managed VRF). -/
 def duPending (e : Env) (st : St) : List Name × Bool :=
   let cand := (e.a.acls.map (·.1)).filter fun n => !st.aNeeded.contains n && (st.aToDel.contains n || isTagged n)
@@ -474,7 +515,7 @@ def duPending (e : Env) (st : St) : List Name × Bool :=
     ((List.range bs.length).filter fun k => !st.bNeeded.contains (i, k)).filterMap fun k =>
       let n := (bs.getD k default).acl
       if e.a.hasAcl n && !st.aNeeded.contains n then some n else none
-  (sortS ((cand.filter fun n => !still.contains n).eraseDups), cand.any still.contains)
+  (sortS (cand.filter fun n => !still.contains n), cand.any still.contains)
 
 def deleteUnused (e : Env) (st : St) : St :=
   let (p, sr) := duPending e st
